@@ -94,6 +94,7 @@ class World(object):
         self.compiled_kind = 'stub'
         self.lowered_src = {}
         self.lowered_funcs = {}
+        self.lowered_code = {}
         self._lower_all()
         self.plan = BackendPlan(())
         self.events = None        # list to append seam events to, or None
@@ -125,6 +126,7 @@ class World(object):
             self.compiled[short] = mod
             self.lowered_src[short] = pysrc
             self.lowered_funcs[short] = funcs
+            self.lowered_code[short] = code
             _rt.CIMPORT['pyspike.cython.' + short] = mod
 
     @contextlib.contextmanager
